@@ -559,6 +559,58 @@ def Run.done (s : Run) : Bool := s.queues.all List.isEmpty
 def sequentialSchedule (queues : List (List Json)) : List Nat :=
   (queues.zipIdx.map fun (q, i) => List.replicate q.length i).flatten
 
+/-! ### a batch on a Combined sink: the members have separate locks -/
+
+/-- a worker of a batch that writes to a Combined sink.  `write_response` on `ResponseSink::Combined` walks the
+members in order; each member's write is atomic under that member's own lock, but between two members the
+worker holds nothing: another worker may be inside a later or an earlier member at the same time.
+`current = some (r, j)`: the response in progress as members `< j` left it, `j` the next member. -/
+structure CWorker where
+  queue : List Json
+  current : Option (Json × Nat) := none
+  returned : List Json := []
+  deriving Inhabited
+
+structure RunC where
+  sinks : List FileSink
+  workers : List CWorker
+  failed : Nat
+  deriving Inhabited
+
+/-- one scheduled step of worker `w`: take the next response, or hand the response in progress to the next
+member (one atomic member write), or — past the last member — hand it back -/
+def RunC.step (N : NumOps) (persist : Bool) (s : RunC) (w : Nat) : RunC :=
+  match s.workers[w]? with
+  | none => s
+  | some wk =>
+    match wk.current with
+    | none =>
+      match wk.queue with
+      | [] => s
+      | r :: rest => { s with workers := s.workers.set w { wk with queue := rest, current := some (r, 0) } }
+    | some (r, j) =>
+      match s.sinks[j]? with
+      | none =>
+        let wk' : CWorker := { wk with current := none, returned := if persist then wk.returned ++ [r] else wk.returned }
+        { s with workers := s.workers.set w wk' }
+      | some sink =>
+        match sink.write N r with
+        | .ok sink' r' =>
+          { s with sinks := s.sinks.set j sink', workers := s.workers.set w { wk with current := some (r', j + 1) } }
+        | .lockError sink' | .panic sink' | .diverges sink' | .ioError sink' _ =>
+          -- the first failing member ends this `write_response` with an error
+          { s with sinks := s.sinks.set j sink', failed := s.failed + 1,
+                   workers := s.workers.set w { wk with current := none } }
+
+def RunC.exec (N : NumOps) (persist : Bool) (s : RunC) (schedule : List Nat) : RunC :=
+  schedule.foldl (RunC.step N persist) s
+
+def RunC.init (sinks : List FileSink) (queues : List (List Json)) : RunC :=
+  { sinks := sinks, workers := queues.map fun q => { queue := q }, failed := 0 }
+
+/-- every worker has handed back everything -/
+def RunC.done (s : RunC) : Bool := s.workers.all fun wk => wk.queue.isEmpty && wk.current.isNone
+
 /-! ### `CompassApp::run`: which responses reach the sink -/
 
 /-- the main thread hands responses to the sink one after the other; `none`: a write failed (the `?` in
